@@ -1,0 +1,35 @@
+//go:build verif
+
+package gmtls
+
+import "crypto/cipher"
+
+// Hooks for the verification harness (property C12, consumer leg): the SM4-GCM AEAD the GM cipher
+// suites use, reached directly and through the gmCipherSuites table.
+
+// VerifAEADSM4GCM is aeadSM4GCM(key, fixedNonce): the AEAD of a connection half keyed with key and
+// the 4-byte implicit nonce.
+func VerifAEADSM4GCM(key, fixedNonce []byte) cipher.AEAD {
+	return aeadSM4GCM(key, fixedNonce)
+}
+
+// VerifGMGCMSuiteIDs lists the ids of the rows of gmCipherSuites that carry an AEAD.
+func VerifGMGCMSuiteIDs() []uint16 {
+	var ids []uint16
+	for _, s := range gmCipherSuites {
+		if s.aead != nil {
+			ids = append(ids, s.id)
+		}
+	}
+	return ids
+}
+
+// VerifGMSuiteAEAD looks the suite up the way the handshake does (mutualCipherSuiteGM) and builds
+// its AEAD as establishKeys does; it also reports the key and implicit-nonce lengths of the row.
+func VerifGMSuiteAEAD(id uint16, key, fixedNonce []byte) (a cipher.AEAD, keyLen, ivLen int, ok bool) {
+	s := mutualCipherSuiteGM([]uint16{id}, id)
+	if s == nil || s.aead == nil {
+		return nil, 0, 0, false
+	}
+	return s.aead(key, fixedNonce), s.keyLen, s.ivLen, true
+}
